@@ -200,9 +200,6 @@ def run_case(rec, spec, variant, rng, oracles=("C01", "C02", "C05", "C06", "C12"
             rec.count("c12:dontcare-bytes-scrambled", ndc)
             try:
                 bs, used_s = lib.dec(kind, spec["format"], xs, b"", b"\xa5\xa5")
-            except UnicodeDecodeError:
-                rec.count("c12:undecodable-tail-skipped")
-                continue
             except Exception as e:
                 V("C06", "layout-conformant-bytes-rejected",
                   f"{type(e).__name__}: {e} decoding reference bytes ({mode} don't-care)")
@@ -405,8 +402,9 @@ def shard_capture(desc, rec):
                 xs = rc.scramble(payload, spans, rng, ["random", "ff", "text"][j % 3])
                 try:
                     os_, _ = lib.dec(kind, e["format"], xs)
-                except UnicodeDecodeError:
-                    rec.count("c12:undecodable-tail-skipped")
+                except Exception as ex:
+                    rec.violation("C12", f"{kind}:dontcare-bytes-break-decoding",
+                                  f"capture: {type(ex).__name__}: {ex}", case)
                     continue
                 rec.count("oracle:C12.content-independent-of-dontcare")
                 xs2 = lib.enc(os_)
